@@ -369,6 +369,7 @@ func (st *vzStrategy) EnterRound(ctx context.Context, rv tmconsensus.RoundView, 
 	st.vs = rv.ValidatorSet
 	nd.w.s.Logf("%s enter round %d/%d", nd.ident(), rv.Height, rv.Round)
 	nd.w.orc.onEnterRound(nd, rv)
+	nd.w.orc.onStrategyOffered(nd, rv.Height, rv.Round, rv.ProposedHeaders, true)
 	if out != nil {
 		want := nd.w.proposerIdx(rv.ValidatorSet, rv.Height, rv.Round)
 		if want != nil && want.Equal(nd.w.fx.PrivVals[nd.idx].Val.PubKey) {
@@ -422,6 +423,9 @@ func (st *vzStrategy) ConsiderProposedBlocks(ctx context.Context, phs []tmconsen
 	st.park("consider")
 	if st.nd.gone(st.inc) {
 		return "", context.Canceled
+	}
+	if len(phs) > 0 {
+		st.nd.w.orc.onStrategyOffered(st.nd, phs[0].Header.Height, phs[0].Round, phs, false)
 	}
 	if hsh, ok := st.pick(phs); ok {
 		st.nd.w.s.Logf("%s consider -> %x", st.nd.ident(), trunc(hsh))
